@@ -396,3 +396,39 @@ func (w *VerifWorld) VerifFind(name string) string {
 
 // WidthForChunks is the chunk index width Fork.updateId / doChunks use.
 func WidthForChunks(n int) int { return util.WidthForInt(n) }
+
+// VerifCompiledForkIds compiles src, expands the fork ids of the call graph
+// node with the given fqid suffix (no ID.<pipestance> prefix) with the real
+// ForkIdSet.MakeForkIds and returns their id strings in list order.
+func VerifCompiledForkIds(src, fqid string) (ids []string, err error) {
+	defer func() {
+		if r := recover(); r != nil {
+			err = fmt.Errorf("panic: %v", r)
+		}
+	}()
+	_, _, ast, err := syntax.ParseSourceBytes([]byte(src), "verif.mro", nil, false)
+	if err != nil {
+		return nil, err
+	}
+	if ast.Call == nil {
+		return nil, fmt.Errorf("no call")
+	}
+	graph, err := ast.MakeCallGraph("", ast.Call)
+	if err != nil {
+		return nil, err
+	}
+	node := graph.NodeClosure()[fqid]
+	if node == nil {
+		return nil, fmt.Errorf("no node %s", fqid)
+	}
+	var set ForkIdSet
+	set.MakeForkIds(node.ForkRoots(), &ast.TypeTable)
+	for _, id := range set.List {
+		s, err := id.ForkIdString()
+		if err != nil {
+			return ids, err
+		}
+		ids = append(ids, s)
+	}
+	return ids, nil
+}
